@@ -1089,20 +1089,139 @@ def run_end_to_end(ctx, res, pool):
             res.sample(s)
 
 
+# ------------------------------------------------------------------------------------------------
+# environment streams: what the role functions and the user-registered functions are bound to
+
+
+def _rolefn_judge(res, cfg, hist, i, op, rec, model, case, queries):
+    """decisions after the role environment changed (grants, revocations, a swapped role manager, a reload) against the
+    Lean enforcer model, whose g(...) is reachability in the current grouping rules (Props/C15 enforce_iff_implicit_permission)"""
+    for q, a, m in zip(queries, rec["answers"], model["answers"]):
+        if q[0] == "enforce" and a != m:
+            res.violation({"signature": f"C02:rolefn-binding:{cfg.shape}", "stream": "rolefn",
+                           "what": f"{cfg.shape} model: after {[list(o) for o in hist[: i + 1]]} the request {list(q[1])} is decided {a}; with g bound to the current role assignments the matcher gives {m}",
+                           "case": case, "query": list(q), "expected": m, "observed": a})
+            return False
+    return True
+
+
+def run_rolefn_binding(ctx, res):
+    import enf_corr as ec
+
+    rng = ctx["rng"]
+    jobs = []
+    for shape in ("rbac", "dom", "res"):
+        P, G, G2, R = ec.universe(shape)
+        init = {"p": P, "g": G[:2], "g2": G2[:1]}
+        env = [("setrm",), ("load", None), ("build",), ("clear",)]
+        grants = [("add", "g", r) for r in G] + [("remove", "g", r) for r in G] + [("removefiltered", "g", 0, [G[0][0]])]
+        if shape == "res":
+            grants += [("add", "g2", r) for r in G2] + [("remove", "g2", r) for r in G2]
+        cfg = ec.Config(shape, adapter=True, watcher=None, initial=init)
+        for a in env:
+            for b in grants:
+                jobs.append((cfg, [a, b]))
+                jobs.append((cfg, [b, a, rng.choice(grants)]))
+        for _ in range(60 if not ctx["deep"] else 400):
+            jobs.append((cfg, [rng.choice(env + grants + grants) for _ in range(rng.randint(3, 7))]))
+    ec.run_configs(res, jobs, _rolefn_judge, fresh_oracle=False)
+
+
+def _iso_worker(seed):
+    """two enforcers in one process register different functions under the same name (and one overrides a built-in):
+    every decision must be the matcher's value with the enforcer's OWN functions"""
+    rng = random.Random(seed)
+    c = cas()
+    text = """[request_definition]
+r = sub, obj, act
+[policy_definition]
+p = sub, obj, act
+[policy_effect]
+e = some(where (p.eft == allow))
+[matchers]
+m = r.sub == p.sub && fn(r.obj, p.obj) && keyMatch(r.act, p.act)
+"""
+    from casbin import util
+
+    fns = {
+        "prefix": lambda a, b: a.startswith(b),
+        "equal": lambda a, b: a == b,
+        "never": lambda a, b: False,
+        "suffix": lambda a, b: a.endswith(b),
+    }
+    kms = {"builtin": None, "always": lambda a, b: True, "equal": lambda a, b: a == b}
+    objs = ["/data", "/data/1", "/dat", "/x/data"]
+    acts = ["read", "re*", "*", "write"]
+    out = {"evals": 0, "viol": []}
+    n_enf = rng.randint(2, 4)
+    plan = [(rng.choice(sorted(fns)), rng.choice(sorted(kms))) for _ in range(n_enf)]
+    enfs = []
+    script = []
+
+    def check(k):
+        e, fk, kk = enfs[k]
+        km = kms[kk] or util.key_match_func
+        for ro in objs:
+            for po in objs[:2]:
+                for ra, pa in (("read", "read"), ("read", "re*"), ("write", "*"), ("write", "read")):
+                    e.model.model["p"]["p"].policy = [["alice", po, pa]]
+                    try:
+                        got = e.enforce("alice", ro, ra)
+                    except Exception as ex:  # noqa
+                        got = f"{type(ex).__name__}"
+                    exp = bool(fns[fk](ro, po)) and bool(km(ra, pa))
+                    out["evals"] += 1
+                    if got != exp:
+                        out["viol"].append({"signature": "C02:function-isolation", "stream": "isolation", "seed": seed,
+                                            "what": f"enforcer #{k} (fn={fk}, keyMatch={kk}) after the script {script}: request ('alice', {ro!r}, {ra!r}) on rule ['alice', {po!r}, {pa!r}] is decided {got}; with its own functions the matcher gives {exp}",
+                                            "expected": exp, "observed": got})
+                        return False
+        return True
+
+    for k, (fk, kk) in enumerate(plan):
+        e = c.Enforcer(c.Enforcer.new_model(text=text))
+        e.add_function("fn", fns[fk])
+        if kms[kk] is not None:
+            e.add_function("keyMatch", kms[kk])
+        enfs.append((e, fk, kk))
+        script.append(["new", k, fk, kk])
+        # every enforcer built so far is re-checked after each registration
+        for j in rng.sample(range(len(enfs)), len(enfs)):
+            script.append(["check", j])
+            if not check(j):
+                return out
+    return out
+
+
+def run_function_isolation(ctx, res, pool):
+    seeds = [ctx["rng"].randrange(1 << 30) for _ in range(24 if not ctx["deep"] else 200)]
+    # each plan runs in a fresh process: class-level state leaked between enforcers is per process
+    for out in pool.imap_unordered(_iso_worker, seeds, chunksize=1):
+        res.evaluations += out["evals"]
+        res.count("stream:function-isolation", out["evals"])
+        for v in out["viol"]:
+            res.violation(v)
+
+
 def run(ctx):
     res = common.Result()
     cas()
     mp = multiprocessing.get_context("fork")
+    with mp.Pool(NPROC, maxtasksperchild=1) as pool:
+        run_function_isolation(ctx, res, pool)
     with mp.Pool(NPROC) as pool:
         run_char_level(ctx, res, pool)
         run_end_to_end(ctx, res, pool)
+    run_rolefn_binding(ctx, res)
     res.exhaustive = True
     res.rule = (
         "char-level: every string over the per-function alphabets / piece sets up to the stated length through the real function and the "
         "Lean model (exhaustive) + seeded random ASCII text; end-to-end: every ACL expression of depth <= 2 (10 atoms, !, &&, ||) x fixed layouts, "
         "and typed random expressions of depth <= 3 for 9 model shapes x layouts (tight / single / double / TAB / continuation before or after "
         "&& and || / trailing comment / random gaps) x config layouts, each on single-rule policies and on a multi-rule policy (enforce_ex "
-        "explanation), against Lean evalExpr; non-trivial = the expression is true of (request, rule); distinct by (shape, matcher text, request, rule)"
+        "explanation), against Lean evalExpr; environment streams: role functions after grants / revocations / a swapped role manager / reload / clear "
+        "against the Lean enforcer model, and 2-4 enforcers per process registering different functions under one name (one overriding keyMatch), each "
+        "re-checked after every later registration; non-trivial = the expression is true of (request, rule); distinct by (shape, matcher text, request, rule)"
     )
     return res
 
@@ -1112,6 +1231,16 @@ def run(ctx):
 
 
 def replay(obj):
+    if obj.get("stream") == "isolation":
+        return bool(_iso_worker(obj["seed"])["viol"])
+    if obj.get("stream") == "rolefn":
+        import enf_corr as ec
+
+        c = obj["case"]["config"]
+        cfg = ec.Config(c["shape"], adapter=c["adapter"], watcher=c["watcher"], initial=c["initial"])
+        q = tuple(tuple(x) if isinstance(x, list) else x for x in obj["query"])
+        out = ec.run_history(cfg, [tuple(o) for o in obj["case"]["history"]], [q])
+        return out[-1]["answers"][0] != obj["expected"]
     if obj.get("stream") == "restype":
         v = {"bT": True, "bF": False, "f1": 1.5, "f0": 0.0, "i1": 3, "i0": 0, "o": "x"}[obj["value_kind"]]
         return impl_result_typing(v) != obj["expected"]
